@@ -92,14 +92,14 @@ Definition yaml_laws (s : option string) (c0 : string) : Prop :=
 (* the interruption points at which the rules clauses hold (computable) *)
 Definition csv_crash_guard (s : option string) (k : nat) : bool :=
   match s with
-  | Some s0 => negb (has_sub O s0) && (Nat.leb k 3 || Nat.leb 7 k)   (* before the move, or settings complete *)
-  | None => Nat.eqb k 0 || Nat.leb 2 k                               (* merchants.rules not begun, or complete *)
+  | Some s0 => negb (has_sub O s0) && (Nat.leb k 3 || Nat.leb 8 k)   (* before the move, or settings closed *)
+  | None => Nat.eqb k 0 || Nat.leb 3 k                               (* merchants.rules not begun, or closed *)
   end.
 
 Definition csv_fault_guard (c : cmd) (s : option string) (k : nat) : bool :=
   match s with
-  | Some s0 => negb (has_sub O s0) && (Nat.leb k 3 || match c with Init => Nat.eqb k 7 | Up => false end)
-  | None => Nat.leb 2 k
+  | Some s0 => negb (has_sub O s0) && Nat.leb k 3
+  | None => Nat.leb 3 k
   end.
 
 (* a failed `tally up --migrate` goes on with get_all_rules(csv path): not an empty rule set while
@@ -161,6 +161,7 @@ Ltac destuck_term t :=
   | context [if has_vsub ?O ?x then _ else _] => destruct (has_vsub O x) eqn:?
   | context [if has_rule_lines ?O ?x then _ else _] => destruct (has_rule_lines O x) eqn:?
   | context [if ceqb ?a ?b then _ else _] => destruct (ceqb a b) eqn:?
+  | context [match ?j with O => _ | S _ => _ end] => is_var j; destruct j
   | context [match lookup ?f (?a ++ ?p) with _ => _ end] => destruct (lookup f (a ++ p)) as [[?|]|] eqn:?
   | context [match lookup ?f ?p with _ => _ end] => is_var p; destruct (lookup f p) as [[?|]|] eqn:?
   end.
@@ -182,6 +183,7 @@ Ltac destuck2_term t :=
   | context [if has_vsub ?O ?x then _ else _] => destruct (has_vsub O x) eqn:?
   | context [if has_rule_lines ?O ?x then _ else _] => destruct (has_rule_lines O x) eqn:?
   | context [if ceqb ?a ?b then _ else _] => destruct (ceqb a b) eqn:?
+  | context [match ?j with O => _ | S _ => _ end] => is_var j; destruct j
   end.
 Ltac norminx2 E :=
   repeat (progress (red2_in E; rw_in E) || match type of E with ?t => destuck2_term t end).
